@@ -230,7 +230,7 @@ pub fn gen_program(r: &mut ChaChaRng, m: i64, kind: &str, id: String) -> Program
     } else {
         None
     };
-    Program { id, p: side, v, seed: r.gen(), tamper, expect_p: String::new(), expect_v, wide: false }
+    Program { id, p: side, v, seed: r.gen(), tamper, expect_p: String::new(), expect_v, wide: false, rets: None, vskip: false }
 }
 
 pub fn gen_programs(seed: u64, n: usize, m: i64, kind: &str) -> Vec<Program> {
